@@ -30,6 +30,7 @@ def estOf (kind : String) (dim : Nat) : Option (Est (List Rat) Rat (List Rat)) :
   if kind == "centroid" then some ⟨fun _ s => centroid dim s, dot⟩
   else if kind == "poswt" then some ⟨fun _ s => posWeighted dim s, dot⟩
   else if kind == "warm" then some ⟨fun th s => vadd th (centroid dim s), dot⟩
+  else if kind == "col1" then some ⟨fun th _ => th, fun _ r => r.getD 1 0⟩   -- `_CvSpy`: score = feature 1
   else none
 
 def transpose (dim : Nat) (rows : List (List Rat)) : List (List Rat) :=
@@ -126,6 +127,32 @@ def opRefit : List V → Option V
         (← toList? toStr? stored) (← toList? toCol? named)))
   | _ => none
 
+/-- the driver's search: a black box that returns nothing and configures nothing (the ops report the
+example list it is *given*, which by `C12_search_pairs_aligned` does not depend on the search) -/
+def unitSearch : HyperSearch (List Rat) (List Rat) Unit := ⟨fun _ => (), fun _ th => th⟩
+
+/-- `fitcv kind shuffle perm maxIter thr override dir rows targets needsCv` → the model of `Model.fit`
+with the `_find_hyperparameters` step: `[status, trace, theta, searches, needsCvAfter]` -/
+def opFitCv : List V → Option V
+  | [kind, sh, perm, it, thr, ov, dir, rows, targets, needsCv] => do
+      let a ← parseFit [kind, sh, perm, it, thr, ov, dir, rows, targets]
+      let o := fitModelCv unitSearch (← toBool? needsCv) a.est leQ a.thr a.cfg (List.replicate a.dim 0) a.rows
+        (transpose a.dim a.rows) a.targets
+      some (list [statusAtom o.out.status, ofTrace o.out.trace, ofOpt (ofList ofRat) o.out.theta,
+        ofTrace o.searches, ofBool o.needsCv])
+  | _ => none
+
+/-- `cvexamples shuffle perm [row ids] [start labels] needsCv` → the example lists `fitLoopCv` hands to the
+search (none or one list of `[id class]`) for given rows / labels / σ / shuffle switch -/
+def opCvExamples : List V → Option V
+  | [sh, perm, ids, labels, needsCv] => do
+      let ids ← toList? toRat? ids
+      let est : Est (List Rat) Rat (List Rat) := ⟨fun th _ => th, fun _ _ => 0⟩
+      let r := fitLoopCv unitSearch (← toBool? needsCv) est (fun _ => []) (← toBool? sh) (← toList? toNat? perm) 0 []
+        (ids.map (fun i => [i])) (← toList? toInt? labels)
+      some (ofTrace r.searches)
+  | _ => none
+
 end Mk.Ops.Fit
 
 namespace Mk.Ops
@@ -133,6 +160,6 @@ open Mk V Mk.Ops.Fit
 
 def fitOps : List (String × (List V → Option V)) :=
   [("fitmodel", opFitModel), ("fitspec", opFitSpec), ("argsort", opArgsort), ("predictbyname", opPredict),
-   ("refitmodel", opRefit)]
+   ("refitmodel", opRefit), ("fitcv", opFitCv), ("cvexamples", opCvExamples)]
 
 end Mk.Ops
